@@ -1536,10 +1536,13 @@ impl ArrayData {
             }
             DataType::RunEndEncoded(run_ends, _values) => {
                 let run_ends_data = self.child_data()[0].clone();
+                // the run ends must cover the logical range of this array
+                let len_plus_offset =
+                    checked_len_plus_offset(&self.data_type, self.len, self.offset)?;
                 match run_ends.data_type() {
-                    DataType::Int16 => run_ends_data.check_run_ends::<i16>(),
-                    DataType::Int32 => run_ends_data.check_run_ends::<i32>(),
-                    DataType::Int64 => run_ends_data.check_run_ends::<i64>(),
+                    DataType::Int16 => run_ends_data.check_run_ends::<i16>(len_plus_offset),
+                    DataType::Int32 => run_ends_data.check_run_ends::<i32>(len_plus_offset),
+                    DataType::Int64 => run_ends_data.check_run_ends::<i64>(len_plus_offset),
                     _ => unreachable!(),
                 }
             }
@@ -1686,8 +1689,10 @@ impl ArrayData {
         })
     }
 
-    /// Validates that each value in run_ends array is positive and strictly increasing.
-    fn check_run_ends<T>(&self) -> Result<(), ArrowError>
+    /// Validates that each value in run_ends array is positive and strictly increasing,
+    /// and that the last value covers `len_plus_offset`, the logical offset + length of
+    /// the run end encoded array this run_ends array belongs to.
+    fn check_run_ends<T>(&self, len_plus_offset: usize) -> Result<(), ArrowError>
     where
         T: ArrowNativeType + TryInto<i64> + num_traits::Num + std::fmt::Display,
     {
@@ -1714,7 +1719,6 @@ impl ArrayData {
             Ok(())
         })?;
 
-        let len_plus_offset = checked_len_plus_offset(&self.data_type, self.len, self.offset)?;
         if prev_value.as_usize() < len_plus_offset {
             return Err(ArrowError::InvalidArgumentError(format!(
                 "The offset + length of array should be less or equal to last value in the run_ends array. The last value of run_ends array is {prev_value} and offset + length of array is {len_plus_offset}."
